@@ -48,7 +48,7 @@ def regenerate() -> list[str]:
                       ('gen_dst.py', 'GenDst.v'), ('gen_instant.py', 'GenInstant.v'),
                       ('gen_builder.py', 'GenBuilder.v'), ('gen_sun.py', 'GenSun.v'),
                       ('gen_parse.py', 'GenParse.v'), ('gen_trig.py', 'GenTrig.v'),
-                      ('gen_init.py', 'GenInit.v')):
+                      ('gen_init.py', 'GenInit.v'), ('gen_removeall.py', 'GenRemoveAll.v')):
         target = COQ / 'gen' / out
         try:
             r = subprocess.run(['python3', str(VERIF / 'tools' / tool), str(REPO), str(target)],
@@ -60,7 +60,7 @@ def regenerate() -> list[str]:
             target.write_text(f'(* {tool} crashed *)\n')
             msgs.append(f'{tool} failed: ' + err)
     # (source the translator does not recognise is not reported here: GenSched.v then has no definitions and the
-    #  property files that state the tie - C01 C02 C09 C10 (scheduler), C07 C08 (job classes), C11 C12 (task managers), C04 C05 C13 C14 C16 (producers), C20 (dst_param), C19 (get_instant), C02 C07 (builder / store / controls / executors), C18 (sun), C17 (argument parser, name tables), C15 (builder / copy), C01 C07 C08 (constructors: gen_init.py) - do not build, the others are not concerned)
+    #  property files that state the tie - C01 C02 C09 C10 (scheduler), C07 C08 (job classes), C11 C12 (task managers), C04 C05 C13 C14 C16 (producers), C20 (dst_param), C19 (get_instant), C02 C07 (builder / store / controls / executors), C18 (sun), C17 (argument parser, name tables), C15 (builder / copy), C01 C07 C08 (constructors: gen_init.py), C07 (remove_all: gen_removeall.py) - do not build, the others are not concerned)
     return msgs
 
 
